@@ -37,6 +37,30 @@ func (w *World) createdVals() []*Val {
 	return out
 }
 
+// inactiveBondedVals returns the created validators that are bonded but outside the provider's own consensus set.
+func (w *World) inactiveBondedVals() []*Val {
+	ctx := w.P.Ctx()
+	rec, err := w.P.PApp.ProviderKeeper.GetLastProviderConsensusValSet(ctx)
+	if err != nil {
+		return nil
+	}
+	active := map[string]bool{}
+	for _, r := range rec {
+		active[consHex(r.ProviderConsAddr)] = true
+	}
+	var out []*Val
+	for _, sv := range w.StakingSnapshot(ctx) {
+		if sv.Bonded() && !sv.Jailed && !active[consHex(sv.ConsAddr)] {
+			for _, v := range w.createdVals() {
+				if consHex(v.ConsAddr()) == consHex(sv.ConsAddr) {
+					out = append(out, v)
+				}
+			}
+		}
+	}
+	return out
+}
+
 func (w *World) randVal() *Val {
 	vs := w.createdVals()
 	return vs[w.Rnd.Intn(len(vs))]
@@ -306,11 +330,28 @@ func opCreateConsumer(w *World) *Op {
 		ip = nil
 		chainID = "dorm-1" // the default initial height has revision 1
 	}
+	// sometimes only bonded validators outside the provider's own consensus set opt in, on a consumer that admits inactive
+	// validators: its set is non-empty but contains no active provider validator, so the launch must fall back
+	var onlyInactive []*Val
+	if w.Rnd.Intn(5) == 0 {
+		onlyInactive = w.inactiveBondedVals()
+		if len(onlyInactive) > 0 {
+			ps = &providertypes.PowerShapingParameters{AllowInactiveVals: true}
+			cls += "+only-inactive-opt-ins"
+		}
+	}
 	w.Op("create-consumer owner=%s chain=%s spawn=%s", owner.Name, chainID, cls)
 	op := one("create-consumer", owner, MsgCreateConsumer(owner, chainID, ip, ps, inf))
 	// often some validators opt in right away (same block, after the creation), so that the launch can succeed
-	if n, ok := w.P.PApp.ProviderKeeper.GetConsumerId(w.P.Ctx()); (ok || n == 0) && w.Rnd.Intn(3) != 0 {
+	if n, ok := w.P.PApp.ProviderKeeper.GetConsumerId(w.P.Ctx()); (ok || n == 0) && (w.Rnd.Intn(3) != 0 || len(onlyInactive) > 0) {
 		id := fmt.Sprint(n + uint64(w.createsThisStep))
+		if len(onlyInactive) > 0 {
+			for _, v := range onlyInactive {
+				op.Specs = append(op.Specs, TxSpec{Signer: v.Oper, Msgs: []sdk.Msg{MsgOptIn(v, id, nil)}, Tag: "opt-in"})
+			}
+			w.createsThisStep++
+			return op
+		}
 		for _, i := range w.Rnd.Perm(len(w.Vals))[:1+w.Rnd.Intn(3)] {
 			v := w.Vals[i]
 			if v.Created {
